@@ -175,3 +175,32 @@ func replaySeeds(id string, r *Report, repo, verif string) {
 	r.Extra["seeded_changes_total"] = len(dirs) - stale
 	r.Extra["seeded_changes_stale"] = stale
 }
+
+// replayBenign: the stored behaviour-preserving changes of a property
+// (/verif/benign/<prop>-*/patch.diff: refactorings produced by sub-agents that
+// saw only the property's text, each verified to keep the suite green) must
+// leave the check silent (rule BENIGN).
+func replayBenign(id string, r *Report, repo, verif string) {
+	dirs, _ := filepath.Glob(filepath.Join(verif, "benign", id+"-*"))
+	sort.Strings(dirs)
+	if len(dirs) == 0 {
+		return
+	}
+	r.Rule("BENIGN", "Every stored behaviour-preserving change of this property's code (extracted helpers, inverted conditions, switch / if chains, loop forms, renamed locals, named intermediates, function literals turned into methods, ...) leaves every obligation of the check discharged when its patch is applied in memory to the current tree.", 0)
+	silent, stale := 0, 0
+	for _, d := range dirs {
+		o := runSeed(id, d, repo)
+		switch {
+		case o.Stale != "":
+			stale++
+			r.Trivial("behaviour-preserving change "+o.ID, "", "not applicable to the current tree, skipped: "+o.Stale)
+		case len(o.Fired) == 0:
+			silent++
+			r.OK("behaviour-preserving change "+o.ID, "", "no obligation violated or undecided")
+		default:
+			r.Unknown("behaviour-preserving change "+o.ID, "", "the check raises "+strings.Join(o.Fired, ",")+" on a change that does not alter behaviour ("+strings.Join(o.Details, " | ")+"): a false alarm in the machinery")
+		}
+	}
+	r.Extra["benign_changes_silent"] = silent
+	r.Extra["benign_changes_total"] = len(dirs) - stale
+}
